@@ -130,6 +130,18 @@ func genC09(seed int64, tier string) *Scenario {
 	if classes {
 		use.WriteString("---@type Cls0\nlocal c0 = nil\nprint(c0.fa0)\n")
 	}
+	if r.Intn(4) == 0 {
+		// a file that is listed but cannot be read (a dangling symbolic link) and is required by
+		// fuzzy name from several files of the same parallel first pass
+		sc.Files = append(sc.Files, File{Path: "d0/ghost.lua", Link: Root + "/nowhere/ghost.lua"})
+		for i := range sc.Files {
+			if sc.Files[i].Link == "" && strings.HasSuffix(sc.Files[i].Path, ".lua") && r.Intn(2) == 0 {
+				sc.Files[i].Data = append(Bytes("local gh = require(\"ghost\")\nprint(gh)\n"), sc.Files[i].Data...)
+			}
+		}
+		use.WriteString("local gh = require(\"ghost\")\nprint(gh)\n")
+		sc.Knobs["ghost"] = true
+	}
 	hugeQuery := false
 	if r.Intn(3) == 0 {
 		// a table and an annotated class with more members than the hover / completion preview shows
